@@ -101,6 +101,15 @@ CHECKS["C08"] = dict(
     note="Affine integer constraints; 4x4 grid of test points; known finding: max_iterations dropped when options is None.",
     design="4 (C08)")
 
+CHECKS["C15"] = dict(
+    text="Plan.tla: a state machine with one action per delivery, evaluator call and step transition; TLC checks bracketing, delivery "
+         "order (handlers of the emitting plan, ancestors, observers), the abort latch, propagation of a nested abort and termination "
+         "(liveness under weak fairness) for every plan shape x run length x failure x budget x abort raised at every delivery of every "
+         "emission and at every evaluator call; every scenario is executed on real plans and the recorded stream is replayed action by "
+         "action against the model (Trace_C15, silent steps for unlogged transitions), including exit codes and refusal of later steps.",
+    note="Bounded runs (K<=2 outer, 1 inner evaluation quick); scripted optimizer back-end; 2 handlers per plan and 2 observers.",
+    design="4 (C15)")
+
 NOT_APPLICABLE = {}
 
 def main():
